@@ -203,7 +203,11 @@ where
                     let n = counter.fetch_add(1, Ordering::SeqCst);
                     let dir = dir_base.join(format!("c{}", n));
                     let shrinking = failed.load(Ordering::SeqCst);
+                    let t0 = Instant::now();
                     let out = guarded(&case, &dir, runf);
+                    if t0.elapsed().as_secs() >= 5 && std::env::var("VERIF_DEBUG").is_ok() {
+                        eprintln!("[debug] slow case ({} s, ok={}): {}", t0.elapsed().as_secs(), out.is_ok(), serde_json::to_string(&case).unwrap_or_default());
+                    }
                     ctx.progress.fetch_add(1, Ordering::SeqCst);
                     match out {
                         Ok(o) => {
